@@ -421,6 +421,124 @@ def reuse_match_ops(m_ref, rng, order=None, hash_at=0):
     return ops
 
 
+# ---- mutate-after-measure: edits that apply to a spec (to build the fresh twin) and to the live object alike
+SKIP_SET = {"type", "property", "header_type", "version", "subtype", "vendor", "xid", "load", "enable"}
+MEASURES = ["len", "pack", "show", "eq", "hash", "pack_twice"]
+
+
+def spec_at(spec, path):
+    node = spec
+    for st in path:
+        if isinstance(st, int): node = node[st]
+        elif "nx_match" in node and st == "nx_match": node = node["nx_match"]
+        elif st in node.get("kw", {}): node = node["kw"][st]
+        else: node = node["set"][st]
+    return node
+
+
+def apply_edit_spec(spec, e):
+    """the spec of the value the object has after the edit"""
+    s = copy.deepcopy(spec)
+    t = spec_at(s, e["path"])
+    op = e["op"]
+    if op == "set":
+        (t["set"] if e["attr"] in t.get("set", {}) else t["kw"])[e["attr"]] = copy.deepcopy(e["value"])
+    elif op == "append": t.append(copy.deepcopy(e["value"]))
+    elif op == "insert": t.insert(e["index"], copy.deepcopy(e["value"]))
+    elif op == "replace": t[e["index"]] = copy.deepcopy(e["value"])
+    elif op == "pop": t.pop(e["index"])
+    elif op == "clear": del t[:]
+    elif op in ("mask", "entry_mask"): t["nx_match"][e["index"]]["mask"] = e["mask"]
+    elif op == "value": t["nx_match"][e["index"]]["value"] = e["value"]
+    elif op == "with_mask": t["nx_match"][e["index"]]["value"] = e["value"]; t["nx_match"][e["index"]]["mask"] = e["mask"]
+    else: raise KeyError(op)
+    return s
+
+
+def edit_sites(rng, spec, path=()):
+    """every place of a spec where the object can be changed in place: scalar attributes, payloads, strings, element lists
+    (append / insert / replace / pop / clear and the elements themselves), sub-objects, masks and values of nx_match entries"""
+    out = []; path = list(path)
+    if not isinstance(spec, dict): return out
+    if "nx_match" in spec:
+        for i, ent in enumerate(spec["nx_match"]):
+            name = ent["nxm"]; ln, maskable = NXM_LEN[name]; mx = (1 << (8 * ln)) - 1
+            lim = 0x0fff if name == "NXM_NX_TCP_FLAGS" else mx
+            num = name in NXM_NUMERIC
+            enc = (lambda x: x) if num else (lambda x: x.to_bytes(ln, "big").hex())
+            v = ent["value"] if num else int(ent["value"], 16)
+            if maskable and ent.get("mask") is None:
+                m = (v | (lim & ~(lim >> 1)) | rng.getrandbits(8 * ln)) & lim
+                if m == mx: m = (mx - 1) | v if v != mx else mx
+                out.append({"path": path, "op": rng.choice(["mask", "mask", "entry_mask"]), "index": i, "mask": enc(m)})
+                v2 = rng.getrandbits(8 * ln) & m
+                out.append({"path": path, "op": "with_mask", "index": i, "value": enc(v2), "mask": enc(m)})
+            elif maskable:
+                out.append({"path": path, "op": rng.choice(["mask", "entry_mask"]), "index": i, "mask": None})
+                out.append({"path": path, "op": "mask", "index": i, "mask": enc(mx)})          # all ones: the entry shrinks again
+            else:
+                out.append({"path": path, "op": "value", "index": i, "value": enc((v ^ 1) & lim)})
+        return out
+    if "cls" not in spec: return out
+    cls = spec["cls"]
+    for part in ("kw", "set"):
+        for k, v in spec.get(part, {}).items():
+            if k in SKIP_SET or isinstance(v, bool) or v is None: continue
+            if cls == "ofp_match":
+                if isinstance(v, int) and k in ("in_port", "tp_src", "tp_dst", "dl_vlan"): out.append({"path": path, "op": "set", "attr": k, "value": (v + 1) & 0xfff})
+                continue
+            if isinstance(v, int):
+                out.append({"path": path, "op": "set", "attr": k, "value": rng.choice([v ^ 1, v // 2, 0])})
+            elif isinstance(v, str) and k in ("data", "body"):
+                if cls == "ofp_packet_out" and spec["kw"].get("buffer_id") is not None: continue     # a buffered packet-out carries no data
+                out.append({"path": path, "op": "set", "attr": k, "value": rng.choice([v + "5a", v + "00" * 7, v[:-2], ""])})
+            elif isinstance(v, str) and k in ZS_FIELDS:
+                out.append({"path": path, "op": "set", "attr": k, "value": (v[:-1] if v else "q") if rng.random() < 0.5 else (v + "\u00e9")[:8]})
+            elif isinstance(v, dict) and ("cls" in v or "nx_match" in v):
+                out += edit_sites(rng, v, path + [k])
+            elif isinstance(v, list) and (not v or (isinstance(v[0], dict) and "cls" in v[0])) and k in ("actions", "ports", "queues", "properties", "body"):
+                lp = path + [k]
+                new = copy.deepcopy(v[0]) if v else ({"cls": "ofp_action_output", "kw": dict(port=2)} if k == "actions" else None)
+                if new is not None:
+                    out.append({"path": lp, "op": "append", "value": new})
+                    out.append({"path": lp, "op": "insert", "index": 0, "value": new})
+                if v:
+                    out.append({"path": lp, "op": "pop", "index": len(v) - 1})
+                    out.append({"path": lp, "op": "pop", "index": 0})
+                    out.append({"path": lp, "op": "clear"})
+                    out.append({"path": lp, "op": "replace", "index": 0, "value": perturb(rng, v[0])})
+                    i = rng.randrange(len(v))
+                    out += edit_sites(rng, v[i], lp + [i])
+    return out
+
+
+def g_mutate(rng, spec, n=None):
+    """mutate-after-measure cases over one spec: one per edit site (or n of them), the measure taken before the edit rotating"""
+    sites = edit_sites(rng, spec)
+    if n is not None:                  # structural edits (lists, masks) all, scalar assignments sampled
+        sets = [e for e in sites if e["op"] == "set"]; rest = [e for e in sites if e["op"] != "set"]
+        if len(rest) > 3 * n: rest = rng.sample(rest, 3 * n)
+        sites = rest + (rng.sample(sets, n) if len(sets) > n else sets)
+    return [{"kind": "seq", "mode": "mutate", "measure": rng.choice(MEASURES), "spec": spec, "edit": e} for e in sites]
+
+
+def g_mask_after_measure(rng, name, holder, measure):
+    """an nx_match (on its own / in an nx_flow_mod / in an nxt_packet_in) whose entry of type `name` gets a mask after `measure`"""
+    ln, _ = NXM_LEN[name]; mx = (1 << (8 * ln)) - 1
+    lim = 0x0ffe if name == "NXM_NX_TCP_FLAGS" else mx - 1
+    v = rng.getrandbits(8 * ln) & lim
+    enc = (lambda x: x) if name in NXM_NUMERIC else (lambda x: x.to_bytes(ln, "big").hex())
+    ents = [{"nxm": name, "value": enc(v), "mask": None}]
+    if name != "NXM_OF_IN_PORT": ents.insert(0, {"nxm": "NXM_OF_IN_PORT", "value": 1, "mask": None})
+    m = {"nx_match": ents}; idx = len(ents) - 1
+    if holder == "nx_match": spec, path = m, []
+    elif holder == "nx_flow_mod":
+        spec = g_nx_message(rng, "nx_flow_mod"); spec["kw"]["match"] = m; path = ["match"]
+    else:
+        spec = g_nx_message(rng, "nxt_packet_in"); spec["set"]["match"] = m; path = ["match"]
+    return {"kind": "seq", "mode": "mutate", "measure": measure, "spec": spec, "edit": {"path": path, "op": rng.choice(["mask", "entry_mask", "with_mask"]), "index": idx, "value": enc(v), "mask": enc(lim)}}
+
+
 def g_reuse(rng, scenario=None):
     """the same component object placed in several messages / packed several times, after hash / == / show — every pack
     must give what a fresh equal object gives (pack is a function of the object's value, not of its history)"""
@@ -655,8 +773,12 @@ class C01(Check):
         # stand on their own and the failure is reported in the evidence (pins_failed, untied_classes) — never silently
         self._pins = self.pins()
         # (another process — a tool resetting lean/PoxModel/Generated with `git checkout` — may have replaced the file while
-        #  the pins were building; write it again so that the property build sees this tree's layouts)
-        changed = common.write_if_changed(path, text) or changed
+        #  the pins were building; write it again so that the property build sees this tree's layouts, and build the pins
+        #  again: they must be judged against THIS tree's layouts, or the property build that follows fails on them)
+        for _ in range(3):
+            if not common.write_if_changed(path, text): break
+            changed = True
+            self._pins = self.pins()
         if self._pins.get("pins_ok"):
             self.extra_modules = list(type(self).extra_modules) + [self.PIN_MODULE]
             self.theorems = list(type(self).theorems) + self.PIN_THEOREMS
@@ -1139,14 +1261,53 @@ class C01(Check):
             else:
                 setattr(o, k, v)
 
+    def live_at(self, obj, path):
+        t = obj
+        for st in path: t = t[st] if isinstance(st, int) else getattr(t, st)
+        return t
+
+    def apply_edit_live(self, obj, spec, e):
+        """the edit of apply_edit_spec, done to the live object in place (attribute assignment on the object that is already
+        there, list methods on the list it already holds, the nx_match attribute interface / the entry itself)"""
+        B = self.B
+        t = self.live_at(obj, e["path"]); op = e["op"]
+        if op == "set": setattr(t, e["attr"], B.kwargs({"kw": {e["attr"]: copy.deepcopy(e["value"])}})[e["attr"]])
+        elif op == "append": t.append(B.build(copy.deepcopy(e["value"])))
+        elif op == "insert": t.insert(e["index"], B.build(copy.deepcopy(e["value"])))
+        elif op == "replace": t[e["index"]] = B.build(copy.deepcopy(e["value"]))
+        elif op == "pop": t.pop(e["index"])
+        elif op == "clear": del t[:]
+        else:
+            name = spec_at(spec, e["path"])["nx_match"][e["index"]]["nxm"]
+            c = getattr(self.nx, name)
+            mask = B.nxm_value(c, e.get("mask")); val = B.nxm_value(c, e.get("value"))
+            if op == "mask": setattr(t, name + "_mask", mask)
+            elif op == "entry_mask": t[e["index"]].mask = mask
+            elif op == "value": setattr(t, name, val)
+            elif op == "with_mask": setattr(t, name + "_with_mask", (val, mask))
+            else: raise KeyError(op)
+        return t
+
+    def measure(self, o, how, spec):
+        """look at an object the ways a program does between building and sending it"""
+        if how == "len": len(o)
+        elif how == "pack": o.pack()
+        elif how == "pack_twice": o.pack(); o.pack()
+        elif how == "show": (o.show() if hasattr(o, "show") else str(o)); repr(o)
+        elif how == "eq": o == self.B.build(spec); o != self.B.build(spec)
+        elif how == "hash":
+            try: hash(o)
+            except TypeError: len(o)
+
     def impl_seq(self, case):
         """histories on ONE object, each step compared with a fresh object of the final value:
            repack   : build(S1).pack(); change it into S2 (assigning / in place); pack()      == build(S2).pack()
            reunpack : o = cls(); o.unpack(pack(S1)); o.unpack(pack(S2)); o.pack()              == pack(S2)
            isolation: d0 = pack(S2); a = build(S1) mutated in place (lists appended to); pack(S2) again == d0"""
         B = self.B
-        mode, s1, s2 = case["mode"], case["spec"], case["spec2"]
-        out = {"cls": s1["cls"], "steps": []}
+        mode, s1 = case["mode"], case["spec"]
+        s2 = apply_edit_spec(s1, case["edit"]) if mode == "mutate" else case["spec2"]
+        out = {"cls": s1.get("cls", "nx_match"), "steps": []}
         def packed(f):
             try: return f().hex()
             except Exception as e: return "raise:%s" % type(e).__name__
@@ -1160,6 +1321,22 @@ class C01(Check):
                 self.mutate_to(o, s2, case.get("inplace", False)); return o.pack()
             out["steps"].append(["pack after the object was changed", packed(again), fresh])
             out["steps"].append(["len after the object was changed", packed(lambda: len(o).to_bytes(4, "big")), (len(fresh) // 2).to_bytes(4, "big").hex()])
+        elif mode == "mutate":
+            # build, look at it (len / pack / show / == / hash: of the whole object and of the part about to change), change
+            # one thing in place, pack: must be what a fresh object of the new value packs to
+            o = B.build(s1); e = case["edit"]; how = case.get("measure", "pack")
+            part = self.live_at(o, e["path"])
+            for x, h in ((o, how), (part, "len" if how == "eq" else how)):
+                try: self.measure(x, h, s1)            # (a show() that raises is not this property's business: go on)
+                except Exception as ex: out.setdefault("measure_raises", []).append(type(ex).__name__)
+                if part is o: break
+            what = "%s, then %s at %s" % (how, e["op"], "/".join(map(str, e["path"])) or "the object")
+            try: self.apply_edit_live(o, s1, e)
+            except AttributeError as ex:
+                if "locked" not in str(ex): raise
+                out["pack"] = None; out["skip"] = "the library refuses the change: a hashed ofp_match is locked"; return out
+            out["steps"].append(["pack after " + what, packed(o.pack), fresh])
+            out["steps"].append(["len after " + what, packed(lambda: len(o).to_bytes(4, "big")), (len(fresh) // 2).to_bytes(4, "big").hex()])
         elif mode == "reunpack":
             b1 = B.build(s1).pack(); b2 = bytes.fromhex(fresh)
             o = B.cls(s1["cls"])()
@@ -1204,14 +1381,18 @@ class C01(Check):
         except Exception as e:
             out["pack"] = None; out["skip"] = "raise:" + type(e).__name__; return out
         out["pack"] = b.hex(); res = {}
-        pre = bytes(range(1, 1 + case.get("offset", 5)))
+        offs = case.get("offsets") or [case.get("offset", 5)]
         def rt(raw, off):
             try:
                 r, o2 = self.do_unpack(o, raw, len(b), off)
                 return {"consumed": r - off, "eq": bool(o2 == o), "repack": o2.pack().hex() == b.hex()}
             except Exception as e:
                 return {"raise": type(e).__name__}
-        res["offset"] = rt(pre + b + TRAILER, len(pre))
+        # as a stream reader does (of_01.Connection.read): the message is decoded where the previous one ended, inside a larger buffer
+        res["offset"] = {}
+        for n in offs:
+            pre = bytes((7 * i + 1) & 0xff for i in range(n))
+            res["offset"][str(n)] = rt(pre + b + TRAILER, n)
         res["bytearray"] = rt(bytearray(b + TRAILER), 0)
         try:
             B.alt = True
@@ -1226,11 +1407,11 @@ class C01(Check):
     def oracle_conv(self, case, obs):
         if obs.get("pack") is None: return None
         n = len(obs["pack"]) // 2
-        for k in ("offset",):
-            r = obs["conv"][k]
-            if "raise" in r: return "unpack (%s) raises %s where the plain call succeeds" % (k, r["raise"])
-            if r["consumed"] != n: return "unpack (%s) consumed %s of %d bytes" % (k, r["consumed"], n)
-            if not r["eq"] or not r["repack"]: return "unpack (%s) yields a different object than the plain call" % k
+        for off, r in obs["conv"]["offset"].items():
+            k = "offset"
+            if "raise" in r: return "unpack (%s) raises %s behind %s bytes where the plain call succeeds" % (k, r["raise"], off)
+            if r["consumed"] != n: return "unpack (%s) behind %s bytes consumed %s of %d bytes" % (k, off, r["consumed"], n)
+            if not r["eq"] or not r["repack"]: return "unpack (%s) behind %s bytes yields a different object than the plain call" % (k, off)
         if obs["conv"]["alt_forms"] is not True:
             return "pack differs when Ethernet addresses are given as raw bytes / actions as a tuple (%s)" % obs["conv"]["alt_forms"]
         return None
@@ -1622,6 +1803,43 @@ class C01(Check):
             out.append(self.obj({"cls": "nx_action_bundle", "kw": dict(load=True, dst={"nxmcls": "NXM_NX_REG%d" % (k % 8)}, nbits=rng.randint(1, 32), offset=k % 3, slaves=list(sl))}))
         return out
 
+    STREAM_OFFSETS = [8, 12, 24, 64, 780]
+
+    def offset_cases(self, rng):
+        """every message / action / struct class decoded at non-zero offsets inside a larger buffer (behind 8, 12, 24, 64, 780
+        bytes — a barrier, a config reply, a port status, …, a flow-stats reply), several values each, lists non-empty"""
+        out = []
+        for k in ofgen.MESSAGE_KINDS:
+            for i in range(3): out.append({"kind": "conv", "spec": ofgen.message(rng, k, small=(i == 0)), "offsets": self.STREAM_OFFSETS})
+        q = lambda: {"cls": "ofp_packet_queue", "kw": dict(queue_id=rint(rng, U32), properties=[{"cls": "ofp_queue_prop_min_rate", "kw": dict(rate=rng.randint(0, 1000))}])}
+        for n in (1, 2, 5):
+            out.append({"kind": "conv", "spec": {"cls": "ofp_queue_get_config_reply", "kw": dict(xid=n, port=n, queues=[q() for _ in range(n)])}, "offsets": self.STREAM_OFFSETS})
+            out.append({"kind": "conv", "spec": {"cls": "ofp_features_reply", "kw": dict(xid=n, datapath_id=1, n_buffers=2, n_tables=3, capabilities=4, actions=5,
+                        ports=[ofgen.phy_port(rng) for _ in range(n)])}, "offsets": self.STREAM_OFFSETS})
+        for k in NX_MESSAGE_KINDS:
+            for _ in range(2): out.append({"kind": "conv", "spec": g_nx_message(rng, k), "offsets": self.STREAM_OFFSETS})
+        for name, g in STRUCT_GEN.items():
+            sp = g(rng)
+            if sp["cls"] != "ofp_match": out.append({"kind": "conv", "spec": sp, "offsets": self.STREAM_OFFSETS})
+        for k in NX_ACTION_KINDS: out.append({"kind": "conv", "spec": g_nx_action(rng, k), "offsets": self.STREAM_OFFSETS})
+        return out
+
+    def mutate_cases(self, rng):
+        """mutate-after-measure: for one object of every class, each place it can be changed in place (scalars, payloads,
+        strings, action / port / queue / property / stats lists and their elements, nx_match masks), after len / pack / show /
+        == / hash; every maskable NXM type given a mask after the length was taken, on its own and inside both NX messages"""
+        out = []
+        specs = [s for s in self.all_class_specs(rng) if s["cls"] != "ofp_match"]
+        specs += [g_nx_message(rng, k) for k in NX_MESSAGE_KINDS] + [g_nx_action(rng, k) for k in NX_ACTION_KINDS if k != "learn"]
+        for sp in specs: out += g_mutate(rng, sp, 6)
+        for _ in range(6): out += g_mutate(rng, g_nx_match(rng, rng.randint(1, 5)), 4)
+        i = 0
+        for name in NXM_ALL:
+            if not NXM_LEN[name][1]: continue
+            for holder in ("nx_match", "nx_flow_mod", "nxt_packet_in"):
+                out.append(g_mask_after_measure(rng, name, holder, MEASURES[i % len(MEASURES)])); i += 1
+        return out
+
     def all_class_specs(self, rng):
         """one random spec per codec class / message kind"""
         out = []
@@ -1747,7 +1965,9 @@ class C01(Check):
             cases.append({"kind": "seq", "mode": "reunpack", "spec": spec, "spec2": s2})
             cases.append({"kind": "seq", "mode": "isolation", "spec": spec, "spec2": s2})
             cases.append({"kind": "seq", "mode": "coexist", "spec": spec, "spec2": s2})
-            cases.append({"kind": "conv", "spec": spec, "offset": rng.choice([1, 3, 8, 13])})
+            cases.append({"kind": "conv", "spec": spec, "offsets": [1, 8, 13]})
+        cases += self.offset_cases(rng)
+        cases += self.mutate_cases(rng)
         # ofp_action_output: every reserved port, with and without max_len (max_len must survive for CONTROLLER only)
         for port in (0, 1, 0xff00, 0xfff8, 0xfff9, 0xfffa, 0xfffb, 0xfffc, 0xfffd, 0xfffe, 0xffff):
             for ml in (None, 0, 1, 128, 0xffff):
@@ -1822,7 +2042,9 @@ class C01(Check):
                 sp = ofgen.message(rng, small=True) if rng.random() < 0.7 else rng.choice(list(STRUCT_GEN.values()))(rng)
                 if sp["cls"] == "ofp_match": continue
                 m = rng.choice(["repack", "repack", "reunpack", "isolation", "coexist", "conv"])
-                if m == "conv": yield {"kind": "conv", "spec": sp, "offset": rng.randint(1, 20)}
+                if m == "conv": yield {"kind": "conv", "spec": sp, "offsets": [rng.randint(1, 20), rng.choice(self.STREAM_OFFSETS), rng.randint(21, 2000)]}
+                elif rng.random() < 0.4:
+                    for c in g_mutate(rng, sp, 2): yield c
                 else: yield {"kind": "seq", "mode": m, "inplace": rng.random() < 0.5, "spec": sp, "spec2": perturb(rng, sp)}
             elif r < 0.93:
                 sp = ofgen.match(rng) if rng.random() < 0.6 else abnormal_match(rng)
